@@ -18,7 +18,7 @@ Separate Extraction
   Encoders.encode Encoders.assignment_to_extension Encoders.arg_to_lit Encoders.first_range_var
   Encoders.range_var Encoders.enc_base
   (* SAT programs, graph algorithms, static solvers *)
-  Prog.init_st Prog.log_of Prog.script_oracle Prog.run
+  Prog.init_st Prog.log_of Prog.script_oracle Prog.run Prog.bind
   Graph.view_of_fw Graph.view_of_af Graph.grounded Graph.all_ccs Graph.merged_cc_of Graph.cc_new
   Solvers.run_query
   (* equivalence reduction (C19) *)
